@@ -17,3 +17,48 @@ Print Assumptions C07_stems_concat.
 Theorem C07_stems_stacked : forall b st, In st (stems b) -> chain st.
 Proof. intros b st H. apply (runs_chain (paired53 b)). exact H. Qed.
 Print Assumptions C07_stems_stacked.
+
+(* ------------------------------------------------------------------ elements *)
+From RV Require Import Model.AllDb Model.Elements Proofs.C07Main.
+From Coq Require Import Sorted.
+
+(* maximal: two consecutive stems cannot be merged *)
+Theorem C07_stems_maximal : forall b, LocallySorted not_mergeable (stems b).
+Proof. intros b. exact (runs_maximal (paired53 b)). Qed.
+Print Assumptions C07_stems_maximal.
+
+(* a stem's two strands: faithful slices with mirrored pairing, 5' strand entirely before the 3' strand *)
+Theorem C07_stem_strands : forall b, valid b = true -> forall db st e0, In st (stems b) -> nth_error st 0 = Some e0 ->
+    let s5 := fst (stem_of b db st) in
+    let s3 := snd (stem_of b db st) in
+    let len := length st in
+    strand_faithful b db s5 /\ strand_faithful b db s3 /\
+    s_first s5 = idx e0 /\ s_last s5 = idx e0 + len - 1 /\ s_first s3 = pair e0 - len + 1 /\ s_last s3 = pair e0 /\
+    (forall t, t < len -> pair_at b (idx e0 + t) = pair e0 - t) /\
+    idx e0 + len - 1 < pair e0 - len + 1.
+Proof. exact stem_strands. Qed.
+Print Assumptions C07_stem_strands.
+
+(* every strand of every reported element has the sequence and structure text of its slice first..last *)
+Theorem C07_strands_faithful : forall b db, valid b = true ->
+    let E := elements b db in
+    (forall p, In p (el_stems E) -> strand_faithful b db (fst p) /\ strand_faithful b db (snd p)) /\
+    (forall x, In x (el_single E) -> strand_faithful b db (fst (fst x))) /\
+    (forall s, In s (el_hairpins E) -> strand_faithful b db s) /\
+    (forall l s, In l (el_loops E) -> In s l -> strand_faithful b db s).
+Proof. exact elements_faithful. Qed.
+Print Assumptions C07_strands_faithful.
+
+(* a reported hairpin is a pair enclosing only unpaired nucleotides *)
+Theorem C07_hairpins_sound : forall b db, valid b = true -> forall s, In s (el_hairpins (elements b db)) ->
+    pair_at b (s_first s) = s_last s /\ interior_free b s /\ s_first s < s_last s.
+Proof. exact hairpins_sound. Qed.
+Print Assumptions C07_hairpins_sound.
+
+(* a reported loop: at least two strands, consecutive ends base-paired, closed, interiors unpaired *)
+Theorem C07_loops_sound : forall b db, valid b = true -> forall loop, In loop (el_loops (elements b db)) ->
+    2 <= length loop /\ linked b loop /\
+    (exists s0, hd_error loop = Some s0 /\ pair_at b (s_first s0) = s_last (last loop s0)) /\
+    (forall s, In s loop -> interior_free b s).
+Proof. exact loops_sound. Qed.
+Print Assumptions C07_loops_sound.
